@@ -64,6 +64,9 @@ func famPEP(kinds []int8, second bool, name string) family {
 func famPEPOwn(kinds []int8, name string) family {
 	return family{name, 64, func(s, n int, e space.Emit) { space.PEPOwn(s, n, kinds, e) }}
 }
+func famPPromoOwn(files int, name string) family {
+	return family{name, 64, func(s, n int, e space.Emit) { space.PPromoOwn(s, n, files, e) }}
+}
 func famPPromo() family {
 	return family{"PPROMO", 64, func(s, n int, e space.Emit) { space.PPromo(s, n, e) }}
 }
